@@ -90,9 +90,16 @@ def parse_lp_packet(wire: BinaryStr, with_tl: bool = True) -> (int | None, Binar
     """
     ret = parse_lp_packet_v2(wire, with_tl)
     if ret.nack is not None:
-        return ret.nack.nack_reason, ret.fragment
+        return get_nack_reason(ret.nack), ret.fragment
     else:
         return None, ret.fragment
+
+
+def get_nack_reason(nack: NetworkNack) -> int:
+    """
+    The reason code of a Nack header. A Nack header without a NackReason element means reason None (NDNLPv2).
+    """
+    return NackReason.NONE if nack.nack_reason is None else nack.nack_reason
 
 
 def parse_lp_packet_v2(wire: BinaryStr, with_tl: bool = True) -> LpPacketValue:
@@ -121,7 +128,7 @@ def parse_network_nack(wire: BinaryStr, with_tl: bool = True) -> (int | None, Bi
     ret = LpPacketValue.parse(wire, markers, ignore_critical=True)
 
     if ret.nack is not None:
-        return ret.nack.nack_reason, ret.fragment
+        return get_nack_reason(ret.nack), ret.fragment
     else:
         return None, None
 
